@@ -382,6 +382,7 @@ def run_check(pid, tier, seed):
             tables_hash = regenerate_tables()
             proof = proof_layer(mod)
             if tier == "thorough" and proof["ok"]:
+                lock.sh()      # coqchk only reads .vo files: let other checks' coqchk runs proceed, keep `make` out
                 proof["coqchk"] = coqchk(pid)
         finally:
             lock.un()
